@@ -1009,15 +1009,14 @@ impl Transaction {
         // SPV transactions are "ghost" transactions which are included in SPV/lite-
         // blocks. these transactions are not permitted to create outputs, and are
         // not processed by full-nodes, so cannot be included in valid full-blocks
-        // or consensus.
+        // or consensus. lite-clients accept their blocks without validating the
+        // transactions (see block.validate()), so an SPV transaction only gets here
+        // when a full block or the mempool is being validated, where it would stand
+        // in for a transaction the block creator committed to.
         //
         if self.transaction_type == TransactionType::SPV {
-            if self.total_fees > 0 {
-                error!("ERROR: SPV transaction contains invalid hash");
-                return false;
-            }
-
-            return true;
+            error!("ERROR: SPV transaction cannot be part of a full block or the mempool");
+            return false;
         }
 
         //
